@@ -489,6 +489,38 @@ impl Terminal {
     }
 }
 
+// call recorders for the Vt-level call-structure harness (t_vt_calls)
+pub(crate) static mut CALL_LOG: [u8; 6] = [0; 6];
+pub(crate) static mut CALL_N: usize = 0;
+fn log_call(k: u8) {
+    unsafe {
+        if CALL_N < 6 {
+            CALL_LOG[CALL_N] = k;
+        }
+        CALL_N += 1;
+    }
+}
+impl Terminal {
+    pub(crate) fn kv_log_resize(&mut self, cols: usize, rows: usize) -> bool {
+        log_call(1);
+        self.cols = cols;
+        self.rows = rows;
+        true
+    }
+    pub(crate) fn kv_log_changes(&mut self) -> Vec<usize> {
+        log_call(2);
+        Vec::new()
+    }
+    pub(crate) fn kv_log_gc(&mut self) -> Box<dyn Iterator<Item = Line> + '_> {
+        log_call(3);
+        Box::new(std::iter::empty())
+    }
+    pub(crate) fn kv_log_execute(&mut self, fun: Function) {
+        log_call(4);
+        std::mem::forget(fun);
+    }
+}
+
 pub(crate) fn e_cell(e: &Exp) -> Option<Cell> {
     e.cell
 }
